@@ -16,37 +16,38 @@
                                       accepts fb cand = true /\ tseq_of_run fb cand = s
       (with C04_accept_sound: accepted candidates are valid)
 
-    What is proved is both statements for the fragment [Frag.frag0] (see
+    What is proved is both statements for the fragment [Frag.frag1] (see
     Properties/C04.v for the fragment and for what is missing) - hence
     [_partial].  [cand_inj] is the product of the C13 bijections
     [C13_perm_prefix_bij] (the order of the crossing combinations in a round) and
     [C13_comb_bij] (the levels of each independent factor in a round); the
     theorems of Comb/PermProofs.v and Comb/RadixProofs.v are used directly, none
-    is assumed.  Note that for weighted levels of factors outside every crossing
+    is assumed.  With rejection (user constraints), [accept_complete] says that the
+    key of every valid sequence passes the rejection test.  Note that for weighted levels of factors outside every crossing
     the library itself documents a multiplicity > 1 per name-level sequence
-    ([designrun.name_multiplicity]); such designs are outside [frag0]. *)
+    ([designrun.name_multiplicity]); such designs are outside [frag1]. *)
 From Coq Require Import List.
-From SP Require Import Design.Flat Design.Sem Random.Enum Random.Frag Random.FragSem Random.Frag0Thms
+From SP Require Import Design.Flat Design.Sem Random.Enum Random.Frag Random.FragSem Random.Frag1Thms
   Random.Frag0Example.
 
-Theorem C05_cand_inj_partial : forall (fb : flat), frag0 fb = true ->
+Theorem C05_cand_inj_partial : forall (fb : flat), frag1 fb = true ->
   forall (k1 k2 : key) (c1 c2 : candidate),
   In k1 (keys_of fb) -> In k2 (keys_of fb) ->
   decode_key fb k1 = Some c1 -> decode_key fb k2 = Some c2 ->
   tseq_of_run fb c1 = tseq_of_run fb c2 -> k1 = k2.
-Proof. exact f0_cand_inj. Qed.
+Proof. exact f1_cand_inj. Qed.
 Print Assumptions C05_cand_inj_partial.
 
 (** the keys themselves are pairwise distinct *)
-Theorem C05_keys_nodup_partial : forall (fb : flat), frag0 fb = true -> NoDup (keys_of fb).
-Proof. exact f0_keys_nodup. Qed.
+Theorem C05_keys_nodup_partial : forall (fb : flat), frag1 fb = true -> NoDup (keys_of fb).
+Proof. exact f1_keys_nodup. Qed.
 Print Assumptions C05_keys_nodup_partial.
 
-Theorem C05_accept_complete_partial : forall (fb : flat), frag0 fb = true ->
+Theorem C05_accept_complete_partial : forall (fb : flat), frag1 fb = true ->
   forall (s : tseq), fl_errors_fail fb = false -> valid_b (code_sem fb) s = true ->
   exists (k : key) (cand : candidate),
     In k (keys_of fb) /\ decode_key fb k = Some cand /\ accepts fb cand = true /\ tseq_of_run fb cand = s.
-Proof. exact f0_accept_complete. Qed.
+Proof. exact f1_accept_complete. Qed.
 Print Assumptions C05_accept_complete_partial.
 
 (** the hypotheses are satisfiable by a non-trivial design: 108 keys, 108 valid sequences *)
@@ -56,4 +57,11 @@ Example C05_example :
 Proof.
   split; [exact ex_frag0|]. split; [reflexivity|]. split; [exact ex_keys|]. split; [exact ex_valid_count|].
   split; apply ex_checks.
+Qed.
+Example C05_example_rejection :
+  frag1 ex1_flat = true /\ frag0 ex1_flat = false /\ length (accepted_keys ex1_flat) = 12 /\
+  length (all_valid (code_sem ex1_flat)) = 12 /\ check_inj ex1_flat = true /\ check_complete ex1_flat = true.
+Proof.
+  split; [apply ex1_frag|]. split; [apply ex1_frag|]. split; [apply ex1_keys|]. split; [apply ex1_keys|].
+  split; apply ex1_checks.
 Qed.
